@@ -14,6 +14,7 @@ from mc.report import Recorder
 
 PID = "C05"
 LEVEL = "exploration"
+REDUCED = {'quick': 'depth-2 skeletons: every activation in every slot plus a diagonal of activation pairs; depth 3 only in thorough', 'thorough': 'depth-3 skeletons: every activation in every slot while the other slots cycle'}
 RULE = ("programs = architectures from the grammar (no max-pool) x 6 examples x 6 references x targets; every multiplier entry is "
         "compared with the independent evaluator; non-trivial = architectures with >= 1 activation; separately counted: designed "
         "near-coincident cases (|delta_in| from 1e-2 down to 0) per activation and entries evaluated with the derivative rule")
